@@ -28,6 +28,10 @@ history = {
  'C01f':'frozen','C02f':'frozen-other','C03f':'frozen-other','C04f':'after','C05f':'frozen','C06f':'frozen-other','C07f':'after','C08f':'after',
  'C09f':'after','C10f':'after','C11f':'frozen-other','C13f':'after','C14f':'frozen','C15f':'frozen','C16f':'frozen','C17f':'frozen-other',
  'C18f':'after','C19f':'frozen-other','C20f':'after',
+ # round g: rules frozen at tag rules-frozen-before-round-h; first run in refs/round_g_first_run.txt
+ 'C01g':'frozen','C02g':'frozen','C03g':'after','C04g':'frozen','C05g':'frozen','C06g':'frozen-other','C07g':'after','C08g':'frozen',
+ 'C09g':'after','C10g':'frozen-other','C11g':'after','C13g':'after','C14g':'after','C15g':'frozen','C16g':'frozen','C17g':'after',
+ 'C18g':'frozen','C19g':'frozen','C20g':'after',
 }
 seeds = sys.argv[1:] or sorted(d for d in os.listdir('seeded') if os.path.isdir('seeded/'+d))
 out = subprocess.run(['tools/run_seeds.sh'] + seeds, capture_output=True, text=True).stdout
